@@ -121,7 +121,7 @@ pub const DELIMS: &[(&str, &str)] = &[
 
 pub const TL_TAGS: &[&str] = &["time-limited", "tl", "expires", "期限", "TimeLimited", "EXPIRES"];
 pub const RM_TAGS: &[&str] = &["removal-marker", "marker", "flag", "rm", "Marker", "FLAG"];
-pub const OTHER_TAGS: &[&str] = &["note", "todo", "time-limit", "removal", "keep"];
+pub const OTHER_TAGS: &[&str] = &["note", "todo", "time-limit", "removal", "keep", "tl2", "expires-soon", "marker2", "time-limited-x", "rm/"];
 
 const CODE_LINES: &[&str] = &[
     "foo();",
@@ -670,6 +670,13 @@ impl<'a, 'b> DocGen<'a, 'b> {
                 String::new() // blank line
             } else if r == 1 {
                 self.rng.pick(&["  ", "\t", " "]).to_string() // whitespace-only line
+            } else if r == 3 && self.p.allow_other && self.rng.chance(1, 6) {
+                // a stray tag of an unregistered name: an opener that is never closed, or a closer
+                // that was never opened (inert text as far as cleaning is concerned)
+                // (different names, so that a stray opener and a stray closer can never pair up
+                // across an element boundary, which would make the document improperly nested)
+                let tag = if self.rng.chance(1, 2) { "stray-note-open c=\"x\"" } else { "/stray-note-close" };
+                format!("{}{} {} {}", indent, ds, tag, de)
             } else if r == 2 && self.p.large_inputs && self.rng.chance(1, 40) {
                 // a very long line (minified code): crosses line-buffer and block sizes
                 let n = *self.rng.pick(&[1_100usize, 9_000, 70_000]);
@@ -677,7 +684,8 @@ impl<'a, 'b> DocGen<'a, 'b> {
             } else {
                 format!("{}{}", indent, self.rng.pick(CODE_LINES))
             };
-            if !s.contains(ds) && !s.contains(de) {
+            let is_stray = s.contains("stray-note");
+            if is_stray || (!s.contains(ds) && !s.contains(de)) {
                 return s;
             }
         }
